@@ -216,7 +216,7 @@ def run(ctx, res):
                             res.ob(same_view(pc, r, SliceV(inp.base, 12, H.len - p)), "read-row", m, "App::data() is the view [12, len - padding) of the buffer", detail=repr(r)[:200], pc=pc, entry=d)
         # the parser's and the accessors' own arithmetic (they were run in the state that constructed the value)
         from ..core import arithmetic
-        arithmetic(res, I, d)
+        arithmetic(res, I, d, all_kinds=True)
         for sp, fn, what in I.unmodelled:
             res.unmodelled(fn, what, sp)
     # ---- report block on its own, unknown packet
